@@ -17,7 +17,7 @@ import numpy as np
 from harness import core
 from harness.exact import fp
 
-OFFV = 99999999
+OFFV = 999999
 
 INVARIANTS = ["PixelOfOverlayPointAgrees", "OverlayInsideBox", "FineOverlayReachesEveryPixel", "CountsEqual", "MapsAreTheDocumentedOnes",
               "MapsInverse", "KeptAreThePointsInUnmaskedPixels", "CountsAddUp", "MinPerPixelMonotone"]
@@ -71,7 +71,7 @@ def _call(fn):
         return None, type(e).__name__
 
 
-def a_ints(x, unit=1.0, tol=1e-6, lim=9e7):
+def a_ints(x, unit=1.0, tol=1e-6, lim=9e5):
     """Exact abstraction of numbers onto the integer lattice of `unit`; anything else is counted in `off` and replaced by OFFV."""
     try:
         a = np.asarray(x, dtype=float).ravel() / unit
@@ -84,13 +84,14 @@ def a_ints(x, unit=1.0, tol=1e-6, lim=9e7):
 
 
 def a_fix(x, unit, lim=2e4):
-    """Fixed point: round(x / unit); non-finite or huge values become a value that no clause accepts."""
+    """Fixed point: round(x / unit); non-finite or huge values become a value (1.5 lim) that no clause accepts and whose products
+    in the trace specification still fit 32 bits."""
     try:
         a = np.asarray(x, dtype=float).ravel() / unit
     except Exception:
         return []
     ok = np.isfinite(a) & (np.abs(a) < lim)
-    return [int(v) if o else int(lim) * 2 for v, o in zip(np.rint(np.where(ok, a, 0)), ok)]
+    return [int(v) if o else int(lim * 1.5) for v, o in zip(np.rint(np.where(ok, a, 0)), ok)]
 
 
 def a_points(val, uy, ux):
@@ -120,8 +121,8 @@ def a_points_fix(val, oy, ox, unit):
 # gamma helpers (input generation on the lattice; never used as an expectation)
 # ================================================================================================================
 def geo_for(idx, seed):
-    k = idx * 7 + seed * 13 + 5
-    return list(SCALES[k % len(SCALES)]) + list(ORIGINS[(k // 7) % len(ORIGINS)]), HTS[(k // 3) % len(HTS)]
+    k = ((idx + 1) * 2654435761 + seed * 40503) & 0xFFFFFFFF       # a fixed scrambling of the instance number
+    return list(SCALES[k % len(SCALES)]) + list(ORIGINS[(k // 7) % len(ORIGINS)]), HTS[(k // 42) % len(HTS)]
 
 
 def _bbox(w, u):
@@ -367,7 +368,7 @@ def its_records(inst):
         ids, xs, ys = [], [], []
         if raised == "":
             try:
-                ids, xs, ys = (a_fix(v, 1.0 / 1024, lim=1e6) for v in val)
+                ids, xs, ys = (a_fix(v, 1.0 / 1024, lim=1e5) for v in val)
             except Exception:
                 ids, xs, ys = [], [], []
         recs.append(dict(api="its", inst=inst, fn=fn, C=C, D=D, n=n, gx=inst["gx"], gy=inst["gy"], raised=raised, ids=ids, xs=xs, ys=ys))
@@ -446,7 +447,10 @@ def make_hil_inst(rng, idx, seed, kind="disc"):
     if idx % 5 == 0:
         ad = [M] * nun
     return {"kind": "hil", "idx": idx, "h": n, "w": n, "u": u, "geo": geo, "ht": ht, "pixels": int(rng.choice([1, 2, 5, 12, 30])),
-            "wfn": int(rng.choice([0, 1, 2, 4])), "wfd": fd, "wp": int(rng.integers(0, 3)), "ad": ad, "ex": int(rng.choice([-2, 0, 3])), "sub": kind}
+            "wfn": int(rng.choice([0, 1, 2, 4])), "wfd": fd, "wp": int(rng.integers(0, 3)), "ad": ad, "ex": int(rng.choice([-2, 0, 3])), "sub": kind,
+            # settings forwarded to the two checks, with outcomes that do not depend on where the points fall:
+            # [minimum per pixel (-1 = None), N, background threshold numerator (-1 = None) over 2, background fraction numerator over 2]
+            "st": [[-2, 1, -1, 1], [-1, 3, -1, 1], [0, 5, 0, 1], [None, 1, -1, 1], [-1, 1, 1, 0], [0, 2, 0, 2]][idx % 6]}
 
 
 def _hil_call(inst, im=None):
@@ -457,14 +461,22 @@ def _hil_call(inst, im=None):
     if im is None:
         im = aa.image_mesh.Hilbert(pixels=inst["pixels"] if inst["idx"] % 2 else float(inst["pixels"]), weight_floor=inst["wfn"] / inst["wfd"],
                                    weight_power=float(inst["wp"]))
-    return _call(lambda: im.image_plane_mesh_grid_from(mask=mask, adapt_data=adapt))
+    st = None
+    if inst.get("st") and inst["st"][0] != -2:
+        mn = inst["pixels"] + 1 if inst["st"][0] is None else inst["st"][0]
+        st = aa.SettingsInversion(image_mesh_min_mesh_pixels_per_pixel=None if mn < 0 else mn, image_mesh_min_mesh_number=inst["st"][1],
+                                  image_mesh_adapt_background_percent_threshold=None if inst["st"][2] < 0 else inst["st"][2] / 2,
+                                  image_mesh_adapt_background_percent_check=inst["st"][3] / 2)
+    return _call(lambda: im.image_plane_mesh_grid_from(mask=mask, adapt_data=adapt, settings=st))
 
 
 def hil_record(inst, val, raised, via):
     sy, sx, oy, ox = inst["geo"]
     ht = inst["ht"]
     out = a_points_fix(val, oy * ht, ox * ht, ht / 64.0) if raised == "" else []
-    return dict(api="hil", inst=inst, h=inst["h"], w=inst["w"], u=inst["u"], sy=sy, sx=sx, oy=oy, ox=ox, pixels=inst["pixels"], wfn=inst["wfn"],
+    st = inst.get("st") or [-2, 1, -1, 1]
+    st = [inst["pixels"] + 1 if st[0] is None else st[0]] + list(st[1:])
+    return dict(api="hil", st=st, inst=inst, h=inst["h"], w=inst["w"], u=inst["u"], sy=sy, sx=sx, oy=oy, ox=ox, pixels=inst["pixels"], wfn=inst["wfn"],
                 wfd=inst["wfd"], wp=inst["wp"], typ=type(val).__name__, raised=raised, out=out, via=via)
 
 
@@ -486,6 +498,8 @@ def make_km_inst(rng, idx, seed):
     geo, ht = geo_for(idx, seed)
     nun = len(u)
     pixels = int(rng.integers(1, nun + 1)) if idx % 9 else nun + int(rng.integers(1, 3))
+    if idx % 4 == 1:
+        pixels = 1
     M = int(rng.choice([4, 8, 16]))
     ad = [int(v) for v in rng.integers(1, M + 1, size=nun)]
     ad[int(rng.integers(0, nun))] = M
@@ -508,6 +522,7 @@ def km_record(inst, val, raised, via):
     ht = inst["ht"]
     out = a_points_fix(val, oy * ht, ox * ht, ht / 64.0) if raised == "" else []
     return dict(api="km", inst=inst, h=inst["h"], w=inst["w"], u=inst["u"], sy=sy, sx=sx, oy=oy, ox=ox, pixels=inst["pixels"],
+                ad=inst["ad"], M=max(inst["ad"]), wp=inst["wp"], wfn=inst["wfn"], wfd=inst["wfd"],
                 typ=type(val).__name__, raised=raised, out=out, via=via)
 
 
@@ -558,12 +573,17 @@ def plumb_records(inst):
                      fn_of_mesh=False, raised="", pts=a_points(ipg0, ht / 1000.0, ht / 1000.0)[0], pts_kept=[])
             px, raised = _call(lambda: aa.Pixelization(image_mesh=im, mesh=mesh))
             if raised == "":
-                e.update(im_kept=tag(px.image_mesh), mesh_kept=tag(px.mesh), fn_of_mesh=bool(px.mapper_grids_from == mesh.mapper_grids_from))
-                mg, raised = _call(lambda: px.mapper_grids_from(mask=mask, source_plane_data_grid=grid, source_plane_mesh_grid=ipg,
+                rd, raised = _call(lambda: (px.image_mesh, px.mesh, px.mapper_grids_from == mesh.mapper_grids_from))
+            if raised == "":
+                e.update(im_kept=tag(rd[0]), mesh_kept=tag(rd[1]), fn_of_mesh=bool(rd[2]))
+                spg = aa.Grid2DIrregular(values=np.array(ipg) * np.array([0.5, 0.75]) + np.array([0.25, -0.5]) * ht)      # a "lensed" copy
+                mg, raised = _call(lambda: px.mapper_grids_from(mask=mask, source_plane_data_grid=grid, source_plane_mesh_grid=spg,
                                                                 image_plane_mesh_grid=ipg, adapt_data=ad))
                 if raised == "":
-                    e.update(grid_kept=tag(mg.image_plane_mesh_grid), mask_kept=tag(mg.mask), ad_kept=tag(mg.adapt_data),
-                             pts_kept=a_points(mg.image_plane_mesh_grid, ht / 1000.0, ht / 1000.0)[0] if mg.image_plane_mesh_grid is not None else [])
+                    rd, raised = _call(lambda: (mg.image_plane_mesh_grid, mg.mask, mg.adapt_data))
+                if raised == "":
+                    e.update(grid_kept=tag(rd[0]), mask_kept=tag(rd[1]), ad_kept=tag(rd[2]),
+                             pts_kept=a_points(rd[0], ht / 1000.0, ht / 1000.0)[0] if rd[0] is not None else [])
             e["raised"] = raised
             pix.append(e)
     none_refused = True
@@ -604,6 +624,13 @@ def hist_arg_tables(seed):
     return {"Hilbert": hil, "KMeans": km, "Overlay": ovl}
 
 
+def _fp(val):
+    try:
+        return fp(np.asarray(val, dtype=float))
+    except Exception:
+        return "not-an-array:" + type(val).__name__
+
+
 def hist_records(inst):
     """one object per history; every call of the history also yields its own judged record (via = hist)"""
     import autoarray as aa
@@ -628,13 +655,13 @@ def hist_records(inst):
     for pos, k in enumerate(ids):
         a = dict(args[k], ex=exps[pos % 4] if cls != "Overlay" else 0)
         val, raised = one(a, obj)
-        f = fp(np.asarray(val, dtype=float)) if raised == "" else "raised:" + raised
+        f = _fp(val) if raised == "" else "raised:" + raised
         fresh = ""
         if pos == len(ids) - 1:
             cold = {"Overlay": lambda: aa.image_mesh.Overlay(shape=(3, 4)), "Hilbert": lambda: aa.image_mesh.Hilbert(pixels=9, weight_floor=1 / 8, weight_power=1.0),
                     "KMeans": lambda: aa.image_mesh.KMeans(pixels=4, weight_floor=1 / 8, weight_power=1.0)}[cls]()
             v2, r2 = one(a, cold)
-            fresh = fp(np.asarray(v2, dtype=float)) if r2 == "" else "raised:" + r2
+            fresh = _fp(v2) if r2 == "" else "raised:" + r2
         steps.append({"mk": k, "ad": k, "ex": a["ex"], "fp": f, "fresh": fresh})
         if cls == "Overlay":
             sy, sx, oy, ox = a["geo"]
@@ -686,7 +713,10 @@ def validate(ctx, records, tag, chunk=2500):
         r["id"] = n
     nchunks = max(1, min(14, (len(records) + chunk - 1) // chunk)) if len(records) <= 14 * chunk else (len(records) + chunk - 1) // chunk
     order = sorted(range(len(records)), key=lambda k: -_cost(records[k]))
+    order = [k for k in order if records[k]["api"] != "hil"]
     chunks = [[records[k] for k in order[c::nchunks]] for c in range(nchunks)]
+    # the Hilbert meshes go to one TLC run of their own: it evaluates the 193 x 193 curve once
+    chunks.append([r for r in records if r["api"] == "hil"])
     rejects = []
 
     def one(a):
